@@ -80,6 +80,14 @@ V('c06-cimvalue-passthrough', 'C06', 'C06.R4',
   (OBJ, "    if isinstance(value, type_obj):\n        return value\n    return type_obj(value)",
         "    if isinstance(value, (type_obj, int)):\n        return value\n    return type_obj(value)"),
   'cimvalue')
+V('c06-dt-field-pos', 'C06', 'C06.R7',
+  (TYP, "hours_str = self._to_str(hours, 8, 2)",
+        "hours_str = self._to_str(hours, 8, 3)"), 'layout')
+V('c06-dt-offset-width', 'C06', 'C06.R7',
+  (TYP, "{sign}{offset:03d}')", "{sign}{offset:02d}')"), 'layout')
+V('c06-dt-microsec-begin', 'C06', 'C06.R7',
+  (TYP, "microsec_str = self._to_str(microsec, 15, 6)",
+        "microsec_str = self._to_str(microsec, 14, 6)"), 'layout')
 
 # ---- C04 ------------------------------------------------------------------
 OPSF = 'pywbem/_cim_operations.py'
